@@ -33,19 +33,39 @@ def ref_walk(root, fpat, epat, flags):
     base = common | F.NEGATE | F.DOTMATCH | F.NEGATEALL | F.SPLIT
     gextra = (G.GLOBSTAR if flags & WM.GLOBSTAR else 0) | (G.MATCHBASE if mb else 0)
 
+    single = common | F.DOTMATCH          # one piece at a time: no list machinery involved (pieces are judged by C01-C03)
+    minus = bool(flags & WM.MINUSNEGATE)
+
+    def decomposed(text, one):
+        """`a|b|!c` = (a or b) and not c, an exclusion-only text = not any exclusion - evaluated piece by piece when the text is
+        simple enough to be split by hand (no groups, brackets, braces or escapes); None otherwise."""
+        if any(ch in text for ch in '([{\\') or (flags & WM.RAWCHARS):
+            return None
+        pieces = text.split('|')
+        marker = '-' if minus else '!'
+        if any(p_ in ('', marker) for p_ in pieces):
+            return None
+        pos = [p_ for p_ in pieces if not p_.startswith(marker)]
+        neg = [p_[1:] for p_ in pieces if p_.startswith(marker)]
+        return (any(one(p_) for p_ in pos) if pos else True) and not any(one(n_) for n_ in neg)
+
     def fmatch(name, rel):
         if not fpat:
             return True
         if fp:
-            return G.globmatch(rel, fpat, flags=base | gextra)
-        return F.fnmatch(name, fpat, flags=base)
+            d_ = decomposed(fpat, lambda p_: G.globmatch(rel, p_, flags=single | gextra))
+            return G.globmatch(rel, fpat, flags=base | gextra) if d_ is None else d_
+        d_ = decomposed(fpat, lambda p_: F.fnmatch(name, p_, flags=single))
+        return F.fnmatch(name, fpat, flags=base) if d_ is None else d_
 
     def dexcl(name, rel):
         if not epat:
             return False
         if dp:
-            return G.globmatch(rel + '/', epat, flags=base | gextra)
-        return F.fnmatch(name, epat, flags=base)
+            d_ = decomposed(epat, lambda p_: G.globmatch(rel + '/', p_, flags=single | gextra))
+            return G.globmatch(rel + '/', epat, flags=base | gextra) if d_ is None else d_
+        d_ = decomposed(epat, lambda p_: F.fnmatch(name, p_, flags=single))
+        return F.fnmatch(name, epat, flags=base) if d_ is None else d_
     out = []
     visited = [0]
 
